@@ -254,11 +254,11 @@ def dependency_cone(target_v):
             continue
         seen.add(f)
         text = strip_coq_comments(open(os.path.join(COQ, f)).read())
-        for m in re.finditer(r"From\s+TsRs\s+Require\s+(?:Import|Export)?\s*([^.]*(?:\.[A-Za-z_][^.\s]*)*)\.", text):
-            pass
-        for m in re.finditer(r"(?:From\s+TsRs\s+)?Require\s+(?:Import\s+|Export\s+)?((?:[A-Za-z_][A-Za-z_0-9.]*\s*)+)\.", text):
-            for mod in m.group(1).split():
-                mod = mod.replace("TsRs.", "")
+        for sentence in re.split(r"\.\s", text):
+            if "Require" not in sentence:
+                continue
+            for mod in re.findall(r"[A-Za-z_][A-Za-z_0-9.']*", sentence.split("Require", 1)[1]):
+                mod = mod.replace("TsRs.", "").rstrip(".")
                 cand = os.path.join("theories", *mod.split(".")) + ".v"
                 if os.path.exists(os.path.join(COQ, cand)):
                     todo.append(cand)
